@@ -12,17 +12,19 @@
    answers: tx stream).  The producers of these signals are the subjects of C01, C02/C04, C06 and C09.
 
    The model is the PROPERTY-SATISFYING behaviour.  It differs from the code as found in three places
-   (findings/C07-*.diff, C10-*.diff):
+   (candidate patch findings/C07-fresh-setup.diff; replays findings/C07-*.json, findings/C10-*.json):
      (a) StandardRequestHandler re-dispatches on setup.received in EVERY state and resets start_position,
          tx_data_pid and expecting_ack there (as found: only in IDLE, so an abandoned transfer leaves the handler in
-         the old request's state);
+         the old request's state and the next SETUP is answered by the old request's logic);
      (b) _handle_setup_reset is gated by endpoint_targeted (as found: a SETUP token for another endpoint resets
          the stage FSM);
      (c) CLEAR_FEATURE with recipient <> ENDPOINT or feature <> ENDPOINT_HALT is dispatched to UNHANDLED
          (as found: STALLed in the status stage but the state is kept and the next ACK pulses clear_endpoint_halt).
+   A fourth place is a parameter (`gate`, see below): handle_register_write_request as found, or with the candidate
+   repair of C08.
 
    Parameters: EP endpoint number, mps max_packet_size, spw width of the descriptor handler's start_position,
-   skip the handler's skiplist as a predicate on the input word.
+   skip the handler's skiplist as a predicate on the input word, gate (C08 repair present).
 
    Packed input word (first port = least significant):
      bit 0 tokenizer.new_token   1 ready_for_response   2 is_in   3 is_out   4 is_setup   5 is_ping   6..9 endpoint
